@@ -70,6 +70,9 @@ impl<K: WideColumn, V: WideColumnValue<K>, Db: KvDatabase> SingleMap<K, V>
             Arc::downgrade(&(self.cache.clone() as _)),
         );
 
+        #[cfg(feature = "verif")]
+        crate::verif::thread_point("sm_between_put_and_cache");
+
         self.cache.insert(key, value, updated);
     }
 
@@ -83,6 +86,9 @@ impl<K: WideColumn, V: WideColumnValue<K>, Db: KvDatabase> SingleMap<K, V>
             None,
             Arc::downgrade(&(self.cache.clone() as _)),
         );
+
+        #[cfg(feature = "verif")]
+        crate::verif::thread_point("sm_between_put_and_cache");
 
         self.cache.remove(key, updated);
     }
